@@ -580,6 +580,18 @@ impl<S: Storage, L: Layout> TensorBase<S, L> {
         L: FromShape,
     {
         let data = data.into_storage();
+
+        // Creating a contiguous layout multiplies the sizes of dimensions to
+        // compute strides. Check that this cannot overflow. Zero-sized
+        // dimensions are skipped as they would otherwise hide an overflow.
+        let len_overflows = shape
+            .iter()
+            .try_fold(1usize, |len, size| len.checked_mul(size.max(1)))
+            .is_none();
+        if len_overflows {
+            return Err(FromDataError::StorageLengthMismatch);
+        }
+
         let layout = L::from_shape(shape);
         if layout.min_data_len() != data.len() {
             return Err(FromDataError::StorageLengthMismatch);
